@@ -218,9 +218,12 @@ func pipeDelivery(l *pipeLog, rng *rand.Rand, nkeys, nposters, nposts int, useCh
 	consumed := make(chan struct{}, 1)
 	expectTotal := int64(0)
 	got := int64(0)
+	seenEv := map[tcell.Event]bool{} // only the poller goroutine records
 	record := func(ev tcell.Event, pending bool, waited time.Duration) {
 		when, p := whenInfo(ev)
 		e := trace.Ev{"ev": "Poll", "whenpanic": p, "pending": pending, "waited_us": int(waited / time.Microsecond), "at": us(time.Now())}
+		e["dup"] = seenEv[ev] // the very same event object delivered before
+		seenEv[ev] = true
 		if !p {
 			e["when"] = us(when)
 		}
@@ -246,11 +249,13 @@ func pipeDelivery(l *pipeLog, rng *rand.Rand, nkeys, nposters, nposts int, useCh
 			e["kind"] = "focus"
 		case *tcell.EventResize:
 			e["kind"] = "resize"
+		case *tcell.EventPaste:
+			e["kind"], e["start"] = "paste", v.Start()
 		default:
 			e["kind"] = "other"
 		}
 		l.emit(e)
-		if e["kind"] == "in" || e["kind"] == "post" || e["kind"] == "focus" {
+		if e["kind"] == "in" || e["kind"] == "post" || e["kind"] == "focus" || e["kind"] == "paste" {
 			atomic.AddInt64(&got, 1)
 			select {
 			case consumed <- struct{}{}:
@@ -346,7 +351,7 @@ func pipeDelivery(l *pipeLog, rng *rand.Rand, nkeys, nposters, nposts int, useCh
 			b = append(b, []byte(string(rune(0x1000+k)))...)
 			ids = append(ids, k)
 		}
-		l.emit(trace.Ev{"ev": "Inject", "ids": ids, "focus": false, "at": us(time.Now())})
+		l.emit(trace.Ev{"ev": "Inject", "ids": ids, "focus": false, "paste": false, "at": us(time.Now())})
 		atomic.AddInt64(&expectTotal, int64(len(ids)))
 		tty.Inject(b)
 	}
@@ -364,11 +369,16 @@ func pipeDelivery(l *pipeLog, rng *rand.Rand, nkeys, nposters, nposts int, useCh
 			ids = append(ids, k)
 			k++
 		}
+		paste := !mouse && rng.Intn(10) == 0 // the characters of this chunk arrive as a bracketed paste
+		if paste {
+			b = append(append([]byte("\x1b[200~"), b...), []byte("\x1b[201~")...)
+			atomic.AddInt64(&expectTotal, 2)
+		}
 		focus := rng.Intn(15) == 0
 		if focus {
 			b = append(b, []byte("\x1b[I")...)
 		}
-		l.emit(trace.Ev{"ev": "Inject", "ids": ids, "focus": focus, "at": us(time.Now())})
+		l.emit(trace.Ev{"ev": "Inject", "ids": ids, "focus": focus, "paste": paste, "at": us(time.Now())})
 		atomic.AddInt64(&expectTotal, int64(len(ids)))
 		if focus {
 			atomic.AddInt64(&expectTotal, 1)
